@@ -129,6 +129,14 @@ pub fn dispatch(f: &[&str]) -> String {
                 Err(_) => "none".into(),
             }
         }
+        "cd.parse" => {
+            use lettre::message::header::{self, Header};
+            let Some(x) = utf8(unhex(f[1])) else { return "invalid-utf8".into() };
+            match header::ContentDisposition::parse(&x) {
+                Ok(v) => { let mut h = header::Headers::new(); h.set(v); format!("some\t{}", hex(h.get_raw("Content-Disposition").unwrap_or("").as_bytes())) }
+                Err(_) => "none".into(),
+            }
+        }
         "cte.parse" => {
             use lettre::message::header::{self, Header};
             let Some(x) = utf8(unhex(f[1])) else { return "invalid-utf8".into() };
